@@ -18,7 +18,7 @@ That np.interp is the piecewise-linear interpolant and column independence under
 from __future__ import annotations
 
 from ..absint import Raised, TOP, Evaluator, FuncV, Lin, Obj, SliceV, Sym, Unmodelled
-from ..harness import foreign_ops, da_attr_models, da_method_models
+from ..harness import applied_function, foreign_ops, da_attr_models, da_method_models
 from ..kernel import KernelEval, OrderType
 from ..xmodel import dimsym, make_da, make_grid
 
@@ -225,8 +225,8 @@ def _threading(ctx, P):
             bad = "xr.apply_ufunc not called exactly once"
         else:
             a, kw = au[0]
-            kk = kw.get("kwargs")
-            if not (isinstance(a[0], FuncV) and a[0].name.endswith("interp_1d_linear")):
+            fn0, kk = applied_function(a[0], kw)
+            if not (isinstance(fn0, FuncV) and fn0.name.endswith("interp_1d_linear")):
                 bad = f"apply_ufunc is not applied to interp_1d_linear ({a[0]!r})"
             elif [x.name for x in a[1:]] != ["phi", "theta", "levels"]:
                 bad = f"arguments {[x.name for x in a[1:]]}; expected (phi, theta, target levels)"
@@ -236,7 +236,7 @@ def _threading(ctx, P):
                 bad = f"kernel keyword arguments {kk!r}; expected mask_edges, bypass_checks, logarithmic as given (and not the suffix)"
             else:
                 icd, ocd = kw.get("input_core_dims"), kw.get("output_core_dims")
-                if not (isinstance(icd, list) and len(icd) == 3 and isinstance(ocd, list) and len(ocd) == 1 and icd[2] == ocd[0] and icd[0][0] in a[1].attrs["dims"] and icd[1][0] in a[2].attrs["dims"]):
+                if not (isinstance(icd, (list, tuple)) and len(icd) == 3 and isinstance(ocd, (list, tuple)) and len(ocd) == 1 and icd[2] == ocd[0] and icd[0][0] in a[1].attrs["dims"] and icd[1][0] in a[2].attrs["dims"]):
                     bad = f"core dims {icd!r} -> {ocd!r}; expected the column dims of phi/theta, and the target dimension in and out"
         # R08.4 naming inside the wrapper
         nm = out.attrs.get("name") if isinstance(out, Obj) else None
